@@ -8,9 +8,19 @@ From Coq Require Import List ZArith NArith String Bool Lia FMapPositive.
 From SCC Require Import Base.Sexp Lang.AxSyn Sem.AxSem Model.ParMoves Model.Backend Model.X86 Sem.X86Sem Sem.X86Wf
      Model.Linearize Model.LinCheck Generated.Constants Proof.LinBasics Proof.X86State Proof.X86Sel Proof.X86Exec Proof.X86ParMoves Proof.SubstGraph Proof.X86Subst
      Proof.X86SimRel.
+From SCC Require Export Proof.SimFrag.
 Import ListNotations.
 Open Scope Z_scope.
 Open Scope list_scope.
+(* names that lived in this file before they moved to Proof/SimFrag.v (kept for qualified uses) *)
+Notation lookups_nth := SimFrag.lookups_nth (only parsing).
+Notation bind_nth := SimFrag.bind_nth (only parsing).
+Notation bind_ids := SimFrag.bind_ids (only parsing).
+Notation ctx_int_nth := SimFrag.ctx_int_nth (only parsing).
+Notation sig_match_nth := SimFrag.sig_match_nth (only parsing).
+Notation bind_length := SimFrag.bind_length (only parsing).
+Notation lin_nodup := SimFrag.lin_nodup (only parsing).
+Notation bind_total := SimFrag.bind_total (only parsing).
 
 Notation xvt := (variable_temporary x86_backend Snd).
 Notation xcs := (code_statement x86_backend).
@@ -472,33 +482,7 @@ End Sim2.
 
 (* ================= Substitute ================= *)
 (* the machine side: the new environment, entry by entry *)
-Lemma lookups_nth (e : env) : forall xs vs j x,
-  lookups e xs = Some vs -> nth_error xs j = Some x -> exists v, nth_error vs j = Some v /\ lookup_id e x = Some v.
-Proof.
-  induction xs as [|x0 xs IH]; intros vs j x H Hj; [destruct j; discriminate|].
-  cbn [lookups] in H. destruct (lookup_id e x0) as [v0|] eqn:L0; [|discriminate].
-  destruct (lookups e xs) as [vr|] eqn:LR; [|discriminate]. inversion H; subst vs.
-  destruct j as [|j]; cbn in Hj |- *.
-  - inversion Hj; subst. eauto.
-  - eapply IH; eauto.
-Qed.
-Lemma bind_nth : forall (xs : list ident) (vs : list value) (e' : env) j x v,
-  bind xs vs = Some e' -> nth_error e' j = Some (x, v) -> nth_error xs j = Some x /\ nth_error vs j = Some v.
-Proof.
-  induction xs as [|x0 xs IH]; intros [|v0 vs] e' j x v H Hj; cbn [bind] in H; try discriminate.
-  - inversion H; subst. destruct j; discriminate.
-  - destruct (bind xs vs) as [er|] eqn:B; [|discriminate]. inversion H; subst e'.
-    destruct j as [|j]; cbn in Hj |- *.
-    + inversion Hj; subst. auto.
-    + eapply IH; eauto.
-Qed.
-Lemma bind_ids : forall (xs : list ident) (vs : list value) (e' : env),
-  bind xs vs = Some e' -> map fst e' = xs.
-Proof.
-  induction xs as [|x0 xs IH]; intros [|v0 vs] e' H; cbn [bind] in H; try discriminate.
-  - now inversion H.
-  - destruct (bind xs vs) as [er|] eqn:B; [|discriminate]. inversion H; subst e'. cbn. f_equal. eauto.
-Qed.
+(* lookups_nth, bind_nth, bind_ids: Proof/SimFrag.v *)
 
 (* in the integer fragment no reference count is touched *)
 Lemma cwc_int tm c : forall lc,
@@ -506,11 +490,6 @@ Lemma cwc_int tm c : forall lc,
 Proof.
   induction tm as [|[b tg] tm IH]; intros lc H; cbn [code_weakening_contraction]; [reflexivity|].
   rewrite (H b tg (or_introl eq_refl)). apply IH. intros b' tg' Hin. apply (H b' tg'). now right.
-Qed.
-Lemma ctx_int_nth c i b : ctx_int c = true -> nth_error c i = Some b -> bchi b = Ext /\ bty b = I64.
-Proof.
-  intros H Hn. unfold ctx_int in H. rewrite forallb_forall in H. specialize (H b (nth_error_In _ _ Hn)).
-  unfold is_int_binding in H. destruct (bchi b), (bty b); try discriminate; auto.
 Qed.
 Lemma cwc_ctx_int c re lc : ctx_int c = true -> NoDup (ids c) ->
   code_weakening_contraction x86_backend (transpose re c) c lc = Ok ([], lc).
@@ -738,14 +717,6 @@ Proof.
   - eapply vrep_int; eauto; congruence.
   - eapply vrep_clo; eauto; congruence.
 Qed.
-Lemma sig_match_nth : forall (a s : ctx) i x, sig_match a s = true -> nth_error a i = Some x ->
-  exists y, nth_error s i = Some y /\ bchi x = bchi y /\ bty x = bty y.
-Proof.
-  induction a as [|x0 a IH]; intros [|y0 s] i x H Hi; cbn [sig_match] in H; try discriminate; [destruct i; discriminate|].
-  apply andb_true_iff in H as [K H]. apply kt_eqb_eq in K. destruct i as [|i]; cbn [nth_error] in *.
-  - inversion Hi; subst. eauto.
-  - eauto.
-Qed.
 Lemma bind_rel CL c e st sp (c' : ctx) e' :
   rel CL c e st sp -> NoDup (ids c') -> sig_match c c' = true ->
   bind (vars c') (map snd e) = Some e' -> rel CL c' e' st sp.
@@ -757,19 +728,4 @@ Proof.
     destruct (Vals i y v He) as (b & Hb & V). destruct (sig_match_nth c c' i b SM Hb) as (b' & Hb' & K & T).
     exists b'. split; [exact Hb'|]. apply (vrep_kind CL st sp i b b' v); [congruence|congruence|exact V].
 Qed.
-Lemma bind_length : forall (xs : list ident) (vs : list value) (e' : env), bind xs vs = Some e' -> List.length xs = List.length vs.
-Proof.
-  induction xs as [|x xs IH]; intros [|v vs] e' H; cbn [bind] in H; try discriminate; [reflexivity|].
-  destruct (bind xs vs) eqn:B; [|discriminate]. cbn. f_equal. eauto.
-Qed.
-
-
-
-Lemma lin_nodup S c s : lin_check S c s = true -> NoDup (ids c).
-Proof. intros H. destruct s; cbn [lin_check] in H; apply andb_true_iff in H as [H _]; now apply nodupb_NoDup. Qed.
-
-Lemma bind_total : forall (xs : list ident) (vs : list value), List.length xs = List.length vs -> exists e', bind xs vs = Some e'.
-Proof.
-  induction xs as [|x xs IH]; intros [|v vs] H; cbn in H; try discriminate; cbn [bind]; [eauto|].
-  destruct (IH vs) as (e' & ->); [lia|]. eauto.
-Qed.
+(* bind_length, lin_nodup, bind_total, sig_match_nth: Proof/SimFrag.v *)
